@@ -1737,4 +1737,13 @@ def switch_bbox_epsg_axis_order""", 'C01.a'),
     E('E-C07j-list-snapshot', 'mapproxy/seed/cachelock.py', """        for lock in cur.fetchall():""", """        entries = list(cur)
         for lock in entries:""", 'the queue snapshot taken with list(): equally sound', ['C07']),
 
+    M('M-C05r-revert-D53', 'mapproxy/image/__init__.py', """        if alpha != 255:
+            return rgb + (alpha, )
+        return rgb""", """        return rgb""", 'C05.r', 'revert of fix D53 (the alpha of the palette entry is computed but not reported)'),
+    M('M-C05r-rgb-only-filename', 'mapproxy/cache/file.py', """''.join('%02x' % v for v in color) + '.' + self.file_ext""",
+      """''.join('%02x' % v for v in color[:3]) + '.' + self.file_ext""", 'C05.r', 'the shared file is named by RGB only: RGBA tiles of different alpha collide'),
+    E('E-C05r-alpha-always', 'mapproxy/image/__init__.py', """        if alpha != 255:
+            return rgb + (alpha, )
+        return rgb""", """        return rgb if alpha == 255 else rgb + (alpha, )""", 'conditional expression instead of two returns', ['C05']),
+
 ]
